@@ -69,6 +69,22 @@ fn main() {
                 }
             }
         }
+        Some("espad") => {
+            // pdlv espad <file.pdl> <type>: debug aid, padded-element inputs and what the reference says
+            let text = std::fs::read_to_string(&args[2]).expect("pdl file");
+            let d = compile::desc_of_text("d0.pdl", &text).expect("parse");
+            let r = pdlv_core::refcodec::Ref::new(&d);
+            for st in pdlv_core::choice::draw_streams(1, "espad", 400, 400) {
+                let mut s = pdlv_core::choice::Src::new(&st);
+                let b = pdlv_core::values::gen_bytes(&r, &[args[3].clone()], 4, &mut s);
+                if b.label.starts_with("espad") {
+                    let mut ev = Default::default();
+                    let res = r.decode(&args[3], &b.bytes, true, &mut ev);
+                    println!("{} {} -> {:?}", b.label, pdlv_core::props::hex(&b.bytes), res.map(|x| x.0.to_string()));
+                }
+            }
+            0
+        }
         Some("ref") => {
             // pdlv ref <replay.json> [type]: what the reference model says about the recorded input
             let v: serde_json::Value = serde_json::from_str(&std::fs::read_to_string(&args[2]).expect("file")).expect("json");
